@@ -48,6 +48,7 @@ def handle (fn : String) (a : List Float) : Option (List Float) :=
     let c := ((rest.drop n).take n).toArray
     if rest.length != 2 * n then none else
     some [splder Float.ofNat (nat iderf) m n t x c]
+  | "ponly", [k] => some [k]          -- predicate-only record (bicubic surface, coverage floor): nothing modelled
   | _, _ => none
 
 def main : IO Unit := runPure handle
